@@ -30,8 +30,16 @@
 // value that re-runs the single input through the "one" mode, where all raw data (handler calls,
 // events, verdict) come back to this process and the same judge decides.
 //
+// Histories (parsers are values that are reused): for every generated recovering parser, every
+// pair (w1, w2) of token strings of length <= L-2 is parsed on ONE Parser value, "Init once,
+// Parse twice" and "Init before each Parse"; the second parse must be indistinguishable (verdict,
+// handler calls, events) from a fresh parser's parse of w2. This starts the parser from the
+// non-initial states a previous parse leaves behind (recovering counter, next symbol, pending
+// tokens).
+//
 // The shipped recovering parsers tm and js are run through their public API (as their own
-// parser_test.go does) on every 1-token deletion / duplication of small seed texts.
+// parser_test.go does) on every 1-token deletion / duplication of small seed texts, and on every
+// PAIR of these inputs on one parser value (same differential oracle).
 package main
 
 import (
@@ -1003,7 +1011,7 @@ func run(c *core.Ctx) {
 	if v, err := strconv.Atoi(getenv("C19_GRAMMARS")); err == nil && v > 0 {
 		budget = v
 	}
-	c.Rule("Layer B: statement-list grammars (3 list shapes x <=2 statement rules, RHS <=3 over {ta,tb,tc,X1}; terminal symmetry broken, reduced, conflict-free) x `error` inserted at / replacing every position of every rule as an extra alternative (<=2 placements, conflict-free) x variant (recoveryScope marker / %inject invalid_token / optimizeTables, cycled); per stratum (placements, statement rules) a deterministic stride up to the budget; every grammar and its no-recovery twin are generated, built and run on ALL strings <=L over {a,b,c,'#',' '} x handler {continue, stop}. non-trivial = grammar with >=1 sentence, >=1 recovered (accepted after errors) and >=1 unrecovered input. states = distinct (grammar, mode, handler-call sequence, verdict); transitions = parser runs; traces = sentence runs compared with the twin's events. Shipped tm/js parsers: every 1-token deletion/duplication of the seed texts.")
+	c.Rule("Layer B: statement-list grammars (3 list shapes x <=2 statement rules, RHS <=3 over {ta,tb,tc,X1}; terminal symmetry broken, reduced, conflict-free) x `error` inserted at / replacing every position of every rule as an extra alternative (<=2 placements, conflict-free) x variant (recoveryScope marker / %inject invalid_token / optimizeTables, cycled); per stratum (placements, statement rules) a deterministic stride up to the budget; every grammar and its no-recovery twin are generated, built and run on ALL strings <=L over {a,b,c,'#',' '} x handler {continue, stop}. non-trivial = grammar with >=1 sentence, >=1 recovered (accepted after errors) and >=1 unrecovered input. states = distinct (grammar, mode, handler-call sequence, verdict); transitions = parser runs; traces = sentence runs compared with the twin's events. Histories: every pair of token strings <=L-2 on one parser value (Init once / Init before each parse) compared with a fresh parser. Shipped tm/js parsers: every 1-token deletion/duplication of the seed texts, singly and as pairs on one parser value.")
 	c.Set("L", L)
 	c.Assume("internal/cfgoracle decides sentences (on G) and viable prefixes (on G' with `error` as a terminal that never occurs in inputs)")
 	c.Assume("first-error position = first token that cannot continue a sentence prefix (LALR(1) never shifts an erroneous token; C01 checks this for non-recovering parsers)")
